@@ -129,6 +129,18 @@ Definition stop_api_at (ins : list (N * input)) (t : N) : bool :=
                                     | IApi ApiStop | IApi ApiAnnStop | IApi ApiConnLost | IApi (ApiStopAnnounce _ _) => true
                                     | _ => false
                                     end) ins.
+(* the inputs that precede the first stop-like call made at instant te (everything earlier, and what comes before that
+   call within the instant) *)
+Fixpoint before_stop_at (te : N) (ins : list (N * input)) : list (N * input) :=
+  match ins with
+  | [] => []
+  | p :: r =>
+      if (fst p =? te) && match snd p with
+                          | IApi ApiStop | IApi ApiAnnStop | IApi ApiConnLost | IApi (ApiStopAnnounce _ _) => true
+                          | _ => false
+                          end
+      then [] else p :: before_stop_at te r
+  end.
 Definition start_api_at (ins : list (N * input)) (t : N) : bool :=
   existsb (fun p => (fst p =? t) && match snd p with
                                     | IApi ApiStart | IApi ApiAnnStart | IApi (ApiAnnounce _) => true
@@ -235,13 +247,15 @@ Definition check_C10_inst (sc : scenario) (ins : list (N * input)) (sent : list 
           match the_draw sc (t_rr_min c) (t_rr_max c) with
           | None => false
           | Some drr =>
+              (* a unicast request is answered (queued) at once: it may share the instant of the stop if it precedes it there *)
               existsb (fun p => match snd p with
                                 | IFind a e mc =>
                                     let tq := fst p + (if mc then drr else 0) in
-                                    dest_eq (st_dest x) (Some a) && (tq <? te) && (tq <=? st_time x) && (st_time x <=? tq + t_collect c)
+                                    dest_eq (st_dest x) (Some a) && (if mc then tq <? te else tq <=? te)
+                                    && (tq <=? st_time x) && (st_time x <=? tq + t_collect c)
                                     && match matches_find svc e with Ok true => true | _ => false end
                                 | _ => false
-                                end) ins
+                                end) (before_stop_at te ins)
           end in
         (* an EARLIER lifetime whose stop window is still open when this one is stopped: its StopOffer leaves in the same
            datagram as this lifetime's offers and cannot be told from this lifetime's own - silence is not judged here *)
